@@ -314,9 +314,27 @@ Definition res_unavailable (g : graph) (s : step) : bool :=
                      | Some a => a <? snd nu + running_usage g (fst nu)
                      end) (s_res s).
 
-Definition eligible_cached (g : graph) (s : step) : bool :=
+(* RESOURCE_UNAVAILABLE as the repository has it: the units subtracted are those of the steps that satisfy
+   every generated conjunct (GenSched.ru_where); `w` is any such list *)
+Definition ru_atom_holds (s : step) (a : ru_atom) : bool :=
+  match a with
+  | RuRunning => s_state s =? resource_running_state
+  | RuAttached => negb (s_detached s)
+  end.
+Definition usage_with (w : list ru_atom) (g : graph) (name : str) : N :=
+  fold_right N.add 0
+    (map (units_of name) (filter (fun s => forallb (ru_atom_holds s) w) (g_steps g))).
+Definition res_unavailable_with (w : list ru_atom) (g : graph) (s : step) : bool :=
+  existsb (fun nu => match assoc_str (fst nu) (g_avail g) with
+                     | None => true
+                     | Some a => a <? snd nu + usage_with w g (fst nu)
+                     end) (s_res s).
+
+Definition eligible_cached_with (w : list ru_atom) (g : graph) (s : step) : bool :=
   sholds (senv s) gen_dispatch_where && (g_threshold g <? s_ineed s) && negb (s_detached s)
-  && (s_has_hash s || negb (res_unavailable g s)).
+  && (s_has_hash s || negb (res_unavailable_with w g s)).
+Definition eligible_cached : graph -> step -> bool := eligible_cached_with ru_where.
+Definition dispatch_set_with (w : list ru_atom) (g : graph) : list step := filter (eligible_cached_with w g) (g_steps g).
 Definition dispatch_set (g : graph) : list step := filter (eligible_cached g) (g_steps g).
 
 (* The same decision with every cached attribute replaced by its definition. *)
@@ -704,6 +722,8 @@ Definition allcorrect_b (g : graph) : bool :=
 Fixpoint nodup_b (l : list N) : bool :=
   match l with [] => true | a :: r => negb (mem_N a r) && nodup_b r end.
 Definition wf_b (g : graph) : bool := nodup_b (map s_key (g_steps g)).
+(* unique node ids among the file rows *)
+Definition fwf_b (g : graph) : bool := nodup_b (map f_key (g_files g)).
 
 Definition creator_rank_b (g : graph) (rank : N -> nat) : bool :=
   forallb (fun s => match creator_step g s with
